@@ -70,11 +70,21 @@ HARNESSES = [
                    {'rows': 4, 'K': 1, 'max_proc': 2},
                    {'rows': 3, 'K': 1, 'enc': 'csr'},
                    {'rows': 3, 'K': 1, 'buffer': True},
-                   {'rows': 2, 'K': 1, 'enc': 'csc', 'max_proc': 2}],
+                   {'rows': 2, 'K': 1, 'enc': 'csc', 'max_proc': 2},
+                   # per-chunk files are named <r0>_<r1>_...: offsets with
+                   # different digit counts sort differently as strings
+                   {'rows': 11, 'K': 1, 'buffer': True, 'max_proc': 2,
+                    'chunk_choices': [5, 10]},
+                   {'rows': 11, 'K': 1, 'max_proc': 2,
+                    'chunk_choices': [5]}],
             thorough_cases=[{'rows': n, 'K': 2, 'enc': e, 'buffer': b}
                             for n in (1, 2, 3, 4) for e in ('dense', 'csr')
                             for b in (False, True)]
             + [{'rows': 5, 'K': 1, 'max_proc': 3},
+               {'rows': 11, 'K': 1, 'buffer': True, 'max_proc': 3,
+                'chunk_choices': [3, 5, 10]},
+               {'rows': 101, 'K': 1, 'buffer': True, 'max_proc': 1,
+                'chunk_choices': [50]},
                {'rows': 3, 'K': 2, 'enc': 'csc'}],
             funcs=['election_runner.run_type_assignment_on_h5ad',
                    'election.run_type_assignment_on_h5ad_cpu',
